@@ -1119,6 +1119,121 @@ static void churn(ctx_t *c)
 		    "live, after churn");
 }
 
+/*
+ * Second epilogue: parameters made while a vnacal_new_t still holds others
+ * (possibly deleted by the user) must stay valid after that vnacal_new_t
+ * is freed: make three parameters, free every vnacal_new_t, then read the
+ * three and every live user parameter again.
+ */
+static void release_epilogue(ctx_t *c)
+{
+    model *m = &c->m;
+    int h[3];
+    cx v[3];
+
+    for (int k = 0; k < 3; ++k) {
+	int before = c->elog.nonwarn;
+	v[k] = 0.31 + 0.02 * k + 0.07 * I * (k + 1);
+	h[k] = vnacal_make_scalar_parameter(c->vcp, v[k]);
+	++c->r->transitions;
+	expect_ok(c, "vnacal_make_scalar_parameter", h[k], before);
+	if (h[k] < 0)
+	    return;
+	bool clash = h[k] < NPREDEF;
+	for (int j = 0; j < k; ++j)
+	    if (h[j] == h[k]) clash = true;
+	for (int j = 0; j < 3; ++j)
+	    if (m->slot[j].state == 1 && m->slot[j].handle == h[k])
+		clash = true;
+	if (clash) {
+	    vf_fail(c->r, "handle-not-unique", "vnacal_make_scalar_parameter "
+		    "returned handle %d which is in use (release epilogue)",
+		    h[k]);
+	    return;
+	}
+    }
+    for (int k = 0; k < 2; ++k)
+	if (c->vnp[k] != NULL) {
+	    vnacal_new_free(c->vnp[k]);
+	    c->vnp[k] = NULL;
+	}
+    for (int k = 0; k < 3; ++k) {
+	cx got = vnacal_get_parameter_value(c->vcp, h[k], F0);
+	++c->r->transitions;
+	if (got != v[k]) {
+	    vf_fail(c->r, "wrong:vnacal_get_parameter_value", "parameter "
+		    "%d made as %g%+gj while a vnacal_new_t held other "
+		    "parameters reads %g%+gj after that vnacal_new_t was "
+		    "freed", h[k], creal(v[k]), cimag(v[k]), creal(got),
+		    cimag(got));
+	    return;
+	}
+    }
+    for (int k = 0; k < 3 && c->r->status == VF_OK; ++k)
+	if (m->slot[k].state == 1)
+	    observe_param(c, m->slot[k].handle, m->slot[k].obj,
+		    "live, after the vnacal_new_t structures were freed");
+    for (int k = 0; k < 3; ++k)
+	(void)vnacal_delete_parameter(c->vcp, h[k]);
+    if (c->r->status != VF_OK)
+	return;
+
+    /*
+     * Scripted probe of "a handle deleted while a vnacal_new_t uses it":
+     * make A and B, use B in a fresh vnacal_new_t, delete A (really freed)
+     * and B (still held), make C and D, free the vnacal_new_t, then C and D
+     * must be distinct, valid and hold their values.
+     */
+    {
+	double f1 = 1.0e9;
+	cx mval = 0.2 - 0.1 * I;
+	cx *mp[1] = { &mval };
+	cx va = 0.41 - 0.03 * I, vb = -0.82 + 0.05 * I;
+	cx vc = 0.13 + 0.31 * I, vd = -0.27 - 0.19 * I;
+	int a = vnacal_make_scalar_parameter(c->vcp, va);
+	int b = vnacal_make_scalar_parameter(c->vcp, vb);
+	vnacal_new_t *vnp = vnacal_new_alloc(c->vcp, VNACAL_T8, 1, 1, 1);
+	if (a < 0 || b < 0 || a == b || vnp == NULL ||
+		vnacal_new_set_frequency_vector(vnp, &f1) != 0 ||
+		vnacal_new_add_single_reflect_m(vnp, mp, 1, 1, b, 1) != 0) {
+	    vf_fail(c->r, "probe:setup", "held-delete probe could not be set "
+		    "up (handles %d %d)", a, b);
+	    return;
+	}
+	(void)vnacal_delete_parameter(c->vcp, a);
+	(void)vnacal_delete_parameter(c->vcp, b);
+	int cc = vnacal_make_scalar_parameter(c->vcp, vc);
+	int dd = vnacal_make_scalar_parameter(c->vcp, vd);
+	c->r->transitions += 8;
+	if (cc < NPREDEF || dd < NPREDEF || cc == dd) {
+	    vf_fail(c->r, "handle-not-unique", "held-delete probe: handles "
+		    "%d and %d issued for two live parameters", cc, dd);
+	    return;
+	}
+	for (int k = 0; k < 3; ++k)
+	    if (m->slot[k].state == 1 && (m->slot[k].handle == cc ||
+			m->slot[k].handle == dd)) {
+		vf_fail(c->r, "handle-not-unique", "held-delete probe: a "
+			"live user handle was issued again");
+		return;
+	    }
+	vnacal_new_free(vnp);
+	cx gc = vnacal_get_parameter_value(c->vcp, cc, F0);
+	cx gd = vnacal_get_parameter_value(c->vcp, dd, F0);
+	if (gc != vc || gd != vd) {
+	    vf_fail(c->r, "wrong:vnacal_get_parameter_value", "held-delete "
+		    "probe: parameters %d and %d made while a vnacal_new_t "
+		    "held a deleted handle read %g%+gj and %g%+gj after it "
+		    "was freed (made as %g%+gj and %g%+gj)", cc, dd,
+		    creal(gc), cimag(gc), creal(gd), cimag(gd), creal(vc),
+		    cimag(vc), creal(vd), cimag(vd));
+	    return;
+	}
+	(void)vnacal_delete_parameter(c->vcp, cc);
+	(void)vnacal_delete_parameter(c->vcp, dd);
+    }
+}
+
 /* ------------------------------------------------------------------ */
 
 static void run_hist(int tier, const int *ops, int n, vf_result *r)
@@ -1167,6 +1282,10 @@ static void run_hist(int tier, const int *ops, int n, vf_result *r)
     if (r->status == VF_OK && n > 0) {	/* n == 0 runs outside the sandbox */
 	vf_errlog_reset(&c.elog);
 	churn(&c);
+    }
+    if (r->status == VF_OK && n > 0) {
+	vf_errlog_reset(&c.elog);
+	release_epilogue(&c);
     }
     r->nontrivial = (n == 0 || c.issued);
     r->states = 1;
